@@ -12,3 +12,4 @@ open Cst.C07
 #print axioms slot_accesses_race_free
 #print axioms reference_sees_install
 #print axioms slot_scenario_relaxed_races
+#print axioms marker_facts
